@@ -55,7 +55,7 @@ func c11Value(mult, minRisk osmomath.Dec, amt sdkmath.Int) sdkmath.Int {
 }
 
 func runC11(c *vk.Ctx) {
-	c.R.Rule = "cases = histories with 3 validators, 3 owners, a balancer uosmo/xxx share denom and a concentrated uosmo/xxx full-range share denom enabled as superfluid assets: LockAndSuperfluidDelegate, LockTokens + SuperfluidDelegate, top-ups, SuperfluidUndelegate, SuperfluidUnbondLock, SuperfluidUndelegateAndUnbondLock (partial), CreateFullRangePositionAndSuperfluidDelegate, BeginUnlocking attempts on delegated locks, swaps that move the pool price, 3..8 refresh epochs and jumps past the unbonding period. After every message and every epoch block: each intermediary account's stake vs the risk-adjusted value of exactly the locks delegated through it (exact right after the refresh, one unit per value conversion in between), exactly one superbonding marker per delegated lock and a superunbonding marker ending undelegation time + unbonding period per undelegating lock, SupplyWithOffset(uosmo) unchanged (minting is switched off in these histories), BeginUnlocking refused on delegated locks, no lock returned before its undelegation matured. distinct_nontrivial counts distinct (operation, outcome, #delegated locks bucket, #undelegating bucket, asset kind, right-after-refresh?) tuples."
+	c.R.Rule = "cases = histories with 3 validators, 3 owners, a balancer uosmo/xxx share denom and a concentrated uosmo/xxx full-range share denom enabled as superfluid assets: LockAndSuperfluidDelegate, LockTokens + SuperfluidDelegate, top-ups, SuperfluidUndelegate, SuperfluidUnbondLock, SuperfluidUndelegateAndUnbondLock (partial), CreateFullRangePositionAndSuperfluidDelegate, BeginUnlocking attempts on delegated locks, swaps that move the pool price, 3..8 refresh epochs and jumps past the unbonding period; the minimum risk factor is 0.5 in one history in three and one of 0 / 0.05 / 0.1 / 0.25 / 1/3 / 0.7 otherwise; every fourth history ends with governance removing the share denom from the superfluid assets followed by a refresh (the stake behind its locks must then be gone). After every message and every epoch block: each intermediary account's stake vs the risk-adjusted value of exactly the locks delegated through it (exact right after the refresh, one unit per value conversion in between), exactly one superbonding marker per delegated lock and a superunbonding marker ending undelegation time + unbonding period per undelegating lock, SupplyWithOffset(uosmo) unchanged (minting is switched off in these histories), BeginUnlocking refused on delegated locks, no lock returned before its undelegation matured. distinct_nontrivial counts distinct (operation, outcome, #delegated locks bucket, #undelegating bucket, asset kind, right-after-refresh?) tuples."
 	nHist := c.N(720, 3600)
 	c.Cases("history", nHist, func(i int, r *vk.Rng) {
 		ch := chain.New(chain.Options{Denoms: []string{"xxx"}, NumAccounts: 6, NumValidators: 3, Epochs: map[string]time.Duration{"day": 5 * time.Hour, "week": 6 * time.Hour}})
@@ -69,6 +69,12 @@ func runC11(c *vk.Ctx) {
 		ch.App.MintKeeper.SetMinter(ch.Ctx, minttypes.NewMinter(osmomath.ZeroDec()))
 		stp, _ := ch.App.StakingKeeper.GetParams(ch.Ctx)
 		unbonding := stp.UnbondingTime
+		// the risk factor is a governance parameter: two histories in three run with a non-default value
+		if i%3 != 0 {
+			sp := sk.GetParams(ch.Ctx)
+			sp.MinimumRiskFactor = osmomath.MustNewDecFromStr([]string{"0.25", "0.1", "0.7", "0", "0.05", "0.333333333333333333"}[r.Intn(6)])
+			sk.SetParams(ch.Ctx, sp)
+		}
 		// ---- superfluid assets
 		bm := balancer.NewMsgCreateBalancerPool(lp.Addr, balancer.NewPoolParams(osmomath.MustNewDecFromStr("0.003"), osmomath.ZeroDec(), nil),
 			[]balancer.PoolAsset{{Weight: sdkmath.NewInt(1), Token: sdk.NewCoin("uosmo", sdkmath.NewIntFromBigInt(r.BigMag(9, 14)))}, {Weight: sdkmath.NewInt(1 + r.I64n(3)), Token: sdk.NewCoin("xxx", sdkmath.NewIntFromBigInt(r.BigMag(9, 14)))}}, "")
@@ -595,6 +601,37 @@ func runC11(c *vk.Ctx) {
 			}
 			if !check(strings.TrimSuffix(op, "-rejected"), false) {
 				return
+			}
+		}
+		if i%4 == 1 && !slashed {
+			// governance removes the share denom from the superfluid assets (what RemoveSuperfluidAssetsProposal does):
+			// its locks are worth nothing from the next refresh on, so the stake behind them must be gone after it
+			if asset, err := sk.GetSuperfluidAsset(ch.Ctx, shareDenom); err == nil && asset.Denom == shareDenom {
+				nDel := 0
+				for _, l := range locks {
+					if l.state == "delegated" && l.denom == shareDenom {
+						nDel++
+					}
+				}
+				c.Logf("governance removes superfluid asset %s (%d delegated locks)", shareDenom, nDel)
+				sk.BeginUnwindSuperfluidAsset(ch.Ctx, 0, asset)
+				info := ch.App.EpochsKeeper.GetEpochInfo(ch.Ctx, epochID)
+				dt := info.CurrentEpochStartTime.Add(info.Duration).Sub(ch.Ctx.BlockTime()) + time.Second
+				if dt < 0 {
+					dt = time.Second
+				}
+				before := info.CurrentEpoch
+				ch.NextBlock(dt)
+				ch.NextBlock(time.Second)
+				if ch.App.EpochsKeeper.GetEpochInfo(ch.Ctx, epochID).CurrentEpoch != before {
+					for _, a := range accs {
+						a.roundings = 0
+						a.slack = 0
+					}
+					if !check(fmt.Sprintf("asset-removed+epoch|del%d", bucket(nDel)), true) {
+						return
+					}
+				}
 			}
 		}
 		if i < 2 {
